@@ -2,6 +2,7 @@
 From Molt Require Import Model.Base Model.Tokenizer Model.ListSyn Model.Float Model.Value
   Model.State Model.Script Model.Parser Model.Eval Model.Expr Model.Commands Model.Unicode
   Model.Interp Spec.SpecExc Proofs.BaseFacts Proofs.ValueFacts.
+From Molt Require Proofs.DictFacts.
 From Coq Require Import Lia ZifyBool ZifyN.
 
 Arguments N.eqb : simpl never.
@@ -286,6 +287,127 @@ Lemma level_of_int_id L : L < 2 ^ 64 -> level_of_int (Z.of_N L) = L.
 Proof.
   intros H. unfold level_of_int. rewrite Z.mod_small; [apply N2Z.id|].
   split; [lia|]. change (2 ^ 64)%Z with (Z.of_N (2 ^ 64)). lia.
+Qed.
+
+(* the level goes out through `as MoltInt` (to_i64) and comes back through `as usize`
+   (level_of_int): the round trip is the identity on every usize *)
+Lemma to_i64_mod z : (to_i64 z mod 2 ^ 64 = z mod 2 ^ 64)%Z.
+Proof.
+  unfold to_i64. cbv zeta. destruct (z mod 2 ^ 64 <? 2 ^ 63)%Z.
+  - apply Z.mod_mod. lia.
+  - rewrite <- (Z.mod_add (z mod 2 ^ 64 - 2 ^ 64) 1 (2 ^ 64)) by lia.
+    replace (z mod 2 ^ 64 - 2 ^ 64 + 1 * 2 ^ 64)%Z with (z mod 2 ^ 64)%Z by lia. apply Z.mod_mod. lia.
+Qed.
+
+Lemma to_i64_range z : in_i64 (to_i64 z) = true.
+Proof.
+  unfold to_i64, in_i64, i64_min, i64_max. cbv zeta.
+  pose proof (Z.mod_pos_bound z (2 ^ 64) ltac:(lia)) as B.
+  destruct (z mod 2 ^ 64 <? 2 ^ 63)%Z eqn:E; lia.
+Qed.
+
+Lemma to_i64_small z : (0 <= z < 2 ^ 63)%Z -> to_i64 z = z.
+Proof. intros H. unfold to_i64. cbv zeta. rewrite Z.mod_small by lia. destruct (z <? 2 ^ 63)%Z eqn:E; lia. Qed.
+
+Lemma level_of_int_to_i64 L : L < 2 ^ 64 -> level_of_int (to_i64 (Z.of_N L)) = L.
+Proof. intros H. unfold level_of_int. rewrite to_i64_mod. apply (level_of_int_id L H). Qed.
+
+(* ----- every exception the commands raise has a level that fits a usize ----- *)
+Definition lvl_ok (e : exn) : Prop := x_level e < 2 ^ 64.
+
+Lemma level_of_int_bound z : level_of_int z < 2 ^ 64.
+Proof.
+  unfold level_of_int. pose proof (Z.mod_pos_bound z (2 ^ 64) ltac:(lia)) as B.
+  change (2 ^ 64) with (Z.to_N (2 ^ 64)). lia.
+Qed.
+
+Lemma molt_return_ext_lvl v L C : L < 2 ^ 64 -> lvl_ok (molt_return_ext v L C).
+Proof.
+  intros H. unfold lvl_ok, molt_return_ext. destruct ((L =? 0) && rcode_eqb C CReturn); cbn [x_level]; lia.
+Qed.
+
+Lemma molt_return_err_lvl v L ec ei : L < 2 ^ 64 -> lvl_ok (molt_return_err v L ec ei).
+Proof. intros H. exact H. Qed.
+
+Lemma decrement_level_lvl e : lvl_ok e -> lvl_ok (decrement_level e).
+Proof.
+  unfold lvl_ok, decrement_level. intros H.
+  destruct (x_level e - 1 =? 0); [destruct (rcode_eqb (x_next e) CReturn)|]; cbn [x_level]; lia.
+Qed.
+
+Lemma molt_err_v_lvl m : lvl_ok (molt_err_v m).
+Proof. unfold lvl_ok. cbn. lia. Qed.
+Lemma molt_err2_lvl c m : lvl_ok (molt_err2 c m).
+Proof. unfold lvl_ok. cbn. lia. Qed.
+Lemma molt_break_lvl : lvl_ok molt_break.
+Proof. unfold lvl_ok. cbn. lia. Qed.
+Lemma molt_continue_lvl : lvl_ok molt_continue.
+Proof. unfold lvl_ok. cbn. lia. Qed.
+Lemma add_error_info_lvl e line : lvl_ok e -> lvl_ok (add_error_info e line).
+Proof. intros H. exact H. Qed.
+
+(* the level stored in the options dictionary of such an exception is an i64 in any case, and the
+   plain number whenever it is below 2^63 *)
+Lemma level_entry_small e : x_level e < 2 ^ 63 -> level_entry e = VInt (Z.of_N (x_level e)).
+Proof.
+  intros H. unfold level_entry. rewrite to_i64_small; [reflexivity|].
+  split; [lia|]. change (2 ^ 63)%Z with (Z.of_N (2 ^ 63)). lia.
+Qed.
+
+(* `return` itself: whatever it raises has a level below 2^64 *)
+Lemma return_options_parse_err l : forall o e, return_options_parse l o = Err e -> lvl_ok e.
+Proof.
+  induction l as [|k|k v r IH] using DictFacts.pair_ind; intros o e H; cbn [return_options_parse] in H;
+    try discriminate.
+  repeat match type of H with
+         | (if ?b then _ else _) = _ => destruct b
+         | match ?x with _ => _ end = _ => destruct x
+         end;
+    try (apply IH in H; exact H); try (injection H as <-; apply molt_err_v_lvl).
+Qed.
+
+Theorem cmd_return_lvl st argv st' e : cmd_return st argv = (st', Err e) -> lvl_ok e.
+Proof.
+  unfold cmd_return, bind, lift, ret. intros H.
+  destruct (check_args "cmd_return" argv) as [[]|e0|p|] eqn:EC; try discriminate.
+  2:{ injection H as _ <-. unfold check_args in EC.
+      destruct (args_spec "cmd_return") as [[[[a b] c] sig]|]; [|discriminate].
+      unfold check_args_raw in EC. destruct (_ || _); [|discriminate]. injection EC as <-. apply molt_err_v_lvl. }
+  destruct argv as [|x [|y r]].
+  - destruct (Nat.even (length (@nil value))); cbn in H.
+    all: injection H as _ <-; apply molt_return_ext_lvl || apply molt_return_err_lvl; try apply level_of_int_bound; try (cbv; reflexivity).
+  - injection H as _ <-. apply molt_return_ext_lvl. cbv. reflexivity.
+  - revert H.
+    generalize (if Nat.even (length (x :: y :: r)) then (last (x :: y :: r) v_empty, removelast (skipn 1 (x :: y :: r)))
+                else (v_empty, skipn 1 (x :: y :: r))).
+    intros [rv opts] H.
+    destruct (return_options_parse opts _) as [o|e1|p|] eqn:EP; try discriminate.
+    + destruct (rcode_eqb (ro_code o) CError).
+      * injection H as _ <-. apply molt_return_err_lvl. apply level_of_int_bound.
+      * destruct (_ && _); [discriminate|]. injection H as _ <-. apply molt_return_ext_lvl. apply level_of_int_bound.
+    + injection H as _ <-. eapply return_options_parse_err. exact EP.
+Qed.
+Print Assumptions cmd_return_lvl.
+
+(* the procedure boundary and the top level keep it *)
+Lemma proc_boundary_lvl st r st' e :
+  (forall e0, r = Err e0 -> lvl_ok e0) -> proc_boundary st r = (st', Err e) -> lvl_ok e.
+Proof.
+  intros Hr H. unfold proc_boundary in H. destruct r as [v|e0|p|]; try (injection H as _ E; discriminate E).
+  specialize (Hr e0 eq_refl). unfold ret, fail in H.
+  destruct (x_code e0); try (injection H as _ <-; try exact Hr; apply molt_err_v_lvl); try discriminate.
+  destruct (x_code (decrement_level e0)); try discriminate; injection H as _ <-; apply decrement_level_lvl; exact Hr.
+Qed.
+
+Lemma toplevel_boundary_lvl r e :
+  (forall e0, r = Err e0 -> lvl_ok e0) -> toplevel_boundary r = Err e -> lvl_ok e.
+Proof.
+  intros Hr H. unfold toplevel_boundary in H. destruct r as [v|e0|p|]; try discriminate.
+  specialize (Hr e0 eq_refl).
+  assert (X : lvl_ok match x_code e0 with CReturn => decrement_level e0 | _ => e0 end).
+  { destruct (x_code e0); try exact Hr. apply decrement_level_lvl. exact Hr. }
+  revert X H. generalize (match x_code e0 with CReturn => decrement_level e0 | _ => e0 end). intros e1 X H.
+  destruct (x_code e1); try discriminate; injection H as <-; try exact X; apply molt_err_v_lvl.
 Qed.
 
 Lemma level_of_int_small z : (0 <= z < 2 ^ 64)%Z -> level_of_int z = Z.to_N z.
@@ -1066,7 +1188,7 @@ Theorem return_options_entries e :
     /\ dict_get d k_code = Some (code_entry e)
     /\ dict_get d k_level = Some (level_entry e)
     /\ v_as_int (code_entry e) = inr (rcode_as_int (effective_code e))
-    /\ v_as_int (level_entry e) = inr (Z.of_N (x_level e)).
+    /\ v_as_int (level_entry e) = inr (to_i64 (Z.of_N (x_level e))).
 Proof.
   intros HC HD. rewrite (return_options_err e HC HD). eexists. split; [reflexivity|].
   split; [|split; [|split]].
@@ -1286,14 +1408,14 @@ Proof.
     rewrite (parse_code k_code (code_entry e) _ ro_init _ eq_refl HR).
     rewrite (parse_errorcode k_errorcode (ed_code dd) _ _ eq_refl).
     rewrite (parse_errorinfo k_errorinfo (VStr (ed_info dd)) _ _ eq_refl).
-    rewrite (parse_level k_level (level_entry e) [] _ (Z.of_N (x_level e)) eq_refl eq_refl).
+    rewrite (parse_level k_level (level_entry e) [] _ (to_i64 (Z.of_N (x_level e))) eq_refl eq_refl).
     rewrite parse_end. unfold return_of_opts. cbn [ro_code ro_level ro_ecode ro_einfo ro_init].
-    rewrite EE, (level_of_int_id _ HL). reflexivity.
+    rewrite EE, (level_of_int_to_i64 _ HL). reflexivity.
   - assert (HC : effective_code e <> CError) by (intros X; rewrite X in EE; discriminate).
     rewrite (W4 HC). cbn [dict_words flat_map fst snd app].
     rewrite (cmd_return_code_level st r k_code (code_entry e) k_level (level_entry e) (x_value e)
-               (effective_code e) (Z.of_N (x_level e)) eq_refl HR eq_refl eq_refl).
-    cbv zeta. rewrite EE, (level_of_int_id _ HL).
+               (effective_code e) (to_i64 (Z.of_N (x_level e))) eq_refl HR eq_refl eq_refl).
+    cbv zeta. rewrite EE, (level_of_int_to_i64 _ HL).
     destruct (N.eqb_spec (x_level e) 0) as [E0|E0]; [|reflexivity].
     cbn [andb].
     assert (HN : x_code e <> CReturn) by (intros X; specialize (W2 X); lia).
